@@ -119,3 +119,59 @@ func HarnessAuth(useAuth int, profiling int, k int) {
 	}
 	vh.Reach("end")
 }
+
+// HarnessRevokedLater: the authentication decision is taken afresh on every request. A stored
+// token is used on an arbitrary API route (let through), then revoked by the administrator
+// through the API, then presented again on the same route: structured 401. (State the process
+// keeps between requests - a cache of accepted tokens - is what a single-request lemma cannot see.)
+func HarnessRevokedLater(k int) {
+	db := vhdb.NewDB()
+	admin := vh.NondetAtom("admin")
+	vh.Assume(!vh.StrEq(admin, ""))
+	toks := make([]string, k)
+	for i := range toks {
+		toks[i] = vh.NondetAtom("stored")
+		vh.Assume(!vh.StrEq(toks[i], admin))
+		for j := 0; j < i; j++ {
+			vh.Assume(!vh.StrEq(toks[i], toks[j]))
+		}
+		vhdb.InsertTokenRow(db, dto.DbToken{Token: toks[i], CreatedAt: vh.NondetTime("created")})
+	}
+	app := happ.New(db, &config.HTTPConfig{UseAuth: true, AuthToken: admin}, 3, 6)
+	var api []vhgin.Route
+	var revoke *vhgin.Route
+	for _, r := range vhgin.Routes(app.Engine) {
+		if !strings.HasPrefix(r.Path, apiPrefix+"/") {
+			continue
+		}
+		if r.Method == "DELETE" && r.Path == apiPrefix+"/access/:token" {
+			rr := r
+			revoke = &rr
+			continue
+		}
+		if r.Method == "POST" && r.Path == apiPrefix+"/access" {
+			continue // admin only
+		}
+		api = append(api, r)
+	}
+	vh.Assert("C09/api-routes-registered", len(api) >= 13 && revoke != nil)
+	if revoke == nil {
+		return
+	}
+	r := api[vh.Choose(len(api))]
+	vh.Observe("route", r.Method+" "+r.Path)
+	victim := toks[vh.Choose(k)]
+	req := vhgin.Req{Params: paramsOf(r.Path), Headers: map[string]string{"Authorization": "Bearer " + victim}, BindFails: true}
+
+	first := vhgin.Serve(app.Engine, r.Method, r.Path, req)
+	vh.Assert("C09/authenticated-is-let-through", first.Status != 401)
+
+	del := vhgin.Serve(app.Engine, revoke.Method, revoke.Path, vhgin.Req{Params: map[string]string{"token": victim}, Headers: map[string]string{"Authorization": "Bearer " + admin}})
+	vh.Observe("revoke_status", del.Status)
+	vh.Assert("C09/administrator-can-revoke", del.Status >= 200 && del.Status < 300)
+
+	again := vhgin.Serve(app.Engine, r.Method, r.Path, req)
+	vh.Observe("status_after_revocation", again.Status)
+	vh.Assert("C09/revoked-token-gets-structured-401-on-the-next-request", vh.And(again.Status == 401, again.Documents == 1, !vh.StrEq(again.ErrCode, ""), !vh.StrEq(again.ErrMsg, "")))
+	vh.Reach("end")
+}
